@@ -12,7 +12,7 @@ let fail_parts (s : string) : M.kind * M.msg =
       let kind = (match k with
         | "I" -> M.Interrupted | "E" -> M.UnexpectedEof
         | _ -> M.KUser (n_of_string k)) in
-      (kind, M.MUser (n_of_string n))
+      (kind, if n = "-" then M.MSimple else M.MUser (n_of_string n))
   | _ -> failwith "fail entry"
 
 let rsched_of (s : string) : M.rresp list =
